@@ -12,10 +12,11 @@ EVIDENCE_DIR = os.path.join(VERIF, "evidence")
 
 
 class Ob:
-    """One obligation: a (rule, site) pair examined by a check."""
-    __slots__ = ("rule", "key", "where", "ok", "how", "detail", "nontrivial")
+    """One obligation: a (rule, site) pair examined by a check.  ok is True (discharged), False (violated) or None (undecided: the
+    site is new with respect to the pinned tree and nothing the rule recognises establishes it -- neither shown nor refuted)."""
+    __slots__ = ("rule", "key", "where", "ok", "how", "detail", "nontrivial", "positive")
 
-    def __init__(self, rule, key, where, ok, how, detail, nontrivial):
+    def __init__(self, rule, key, where, ok, how, detail, nontrivial, positive=False):
         self.rule = rule
         self.key = key
         self.where = where
@@ -23,10 +24,27 @@ class Ob:
         self.how = how
         self.detail = detail
         self.nontrivial = nontrivial
+        self.positive = positive
 
     def as_json(self):
         return {"rule": self.rule, "key": self.key, "where": self.where,
-                "status": "discharged" if self.ok else "violated", "how": self.how, "detail": self.detail}
+                "status": "discharged" if self.ok else ("undecided" if self.ok is None else "violated"), "how": self.how, "detail": self.detail}
+
+
+BASELINE_OBLIGATIONS = os.path.join(VERIF, "engine", "rules", "baseline_obligations.json")
+_baseline_cache = {}
+
+
+def baseline_keys(prop):
+    """Obligation keys discharged on the pinned tree (tools/gen_baseline_obligations.py), or None if the table is missing."""
+    if "data" not in _baseline_cache:
+        try:
+            with open(BASELINE_OBLIGATIONS) as f:
+                _baseline_cache["data"] = {k: set(v) for k, v in json.load(f).items()}
+        except (OSError, ValueError):
+            _baseline_cache["data"] = None
+    d = _baseline_cache["data"]
+    return None if d is None else d.get(prop, set())
 
 
 class Ctx:
@@ -39,6 +57,7 @@ class Ctx:
         self.notes = []          # informational lines for evidence
         self.used_exemptions = []  # reviewed invariants / exemptions used in this run
         self.counts = {}
+        self.sites_seen = set()
         self.driver_wall = {}
 
     # --- facts
@@ -53,14 +72,25 @@ class Ctx:
         self._facts.update(facts_by_config)
 
     # --- obligations
-    def ob(self, rule, key, where, ok, how="", detail="", nontrivial=True):
-        """Record an obligation. key identifies the site without line numbers."""
+    def ob(self, rule, key, where, ok, how="", detail="", nontrivial=True, positive=False):
+        """Record an obligation. key identifies the site without line numbers.  ok=None records it as undecided.
+        positive=True: a failure is a positively identified bad construct (never downgraded to undecided for being a new site)."""
         full = "%s|%s" % (rule, key)
-        self.obs.append(Ob(rule, full, where, bool(ok), how, detail, nontrivial))
+        self.obs.append(Ob(rule, full, where, None if ok is None else bool(ok), how, detail, nontrivial, positive))
         return bool(ok)
 
     def exempt(self, rule, key, where, reason):
         self.used_exemptions.append({"rule": rule, "key": key, "where": where, "reason": reason})
+
+    # --- site inventory: sites a rule examines only when something reaches them (alarm-only keys)
+    def site(self, key):
+        """Registers that this site exists on the analysed tree (recorded in the pinned-tree baseline by the generator)."""
+        self.sites_seen.add(key)
+
+    def site_known(self, key):
+        """Does the site exist on the pinned tree?  An alarm at such a site is a regression (positive); True if there is no table."""
+        base = baseline_keys("_sites:" + self.prop)
+        return True if base is None else key in base
 
     def note(self, text):
         self.notes.append(text)
@@ -89,17 +119,32 @@ class Relabel:
     def facts(self, config="native"):
         return self._ctx.facts(config)
 
-    def ob(self, rule, key, where, ok, how="", detail="", nontrivial=True):
+    def ob(self, rule, key, where, ok, how="", detail="", nontrivial=True, positive=False):
         for frm, to in self._map.items():
             pred = None
             if isinstance(to, tuple):
                 to, pred = to
             if rule.startswith(frm) and (pred is None or pred(key)):
-                return self._ctx.ob(to + rule[len(frm):], key, where, ok, how, detail, nontrivial)
+                return self._ctx.ob(to + rule[len(frm):], key, where, ok, how, detail, nontrivial, positive)
         return bool(ok)
 
     def exempt(self, *a, **k):
         pass
+
+    def site(self, key):
+        for frm, to in self._map.items():
+            if isinstance(to, tuple):
+                to = to[0]
+            if key.startswith(frm):
+                self._ctx.site(to + key[len(frm):])
+
+    def site_known(self, key):
+        for frm, to in self._map.items():
+            if isinstance(to, tuple):
+                to = to[0]
+            if key.startswith(frm):
+                return self._ctx.site_known(to + key[len(frm):])
+        return True
 
     def note(self, *a, **k):
         pass
@@ -142,7 +187,18 @@ def run_check(prop, fn, tier, meta, repo=None, preloaded=None, quiet=False):
     for k in known.get("known", []):
         if k["property"] == prop:
             known_keys[k["key"]] = k
-    violated = [o for o in ctx.obs if not o.ok]
+    # A failed obligation at a site the pinned tree does not have (a new call site, a new function) is "not established", not
+    # "refuted": the rules discharge what they recognise, and code they have never seen may be right for reasons they cannot see.
+    # It makes the run UNDECIDED.  A failed obligation at a site that is discharged on the pinned tree is a regression -- the guard,
+    # the shape or the constant that discharged it is gone -- and so is any positively identified bad construct: those are violations.
+    base = baseline_keys(prop)
+    if base is not None and not os.environ.get("VERIF_NO_BASELINE"):
+        for o in ctx.obs:
+            if o.ok is False and not o.positive and o.key not in base and o.key not in known_keys:
+                o.ok = None
+                o.detail = "[site not on the pinned tree; not established] " + (o.detail or "")
+    violated = [o for o in ctx.obs if o.ok is False]
+    open_obs = [o for o in ctx.obs if o.ok is None]
     unlisted = [o for o in violated if o.key not in known_keys]
     listed = [o for o in violated if o.key in known_keys]
 
@@ -164,6 +220,8 @@ def run_check(prop, fn, tier, meta, repo=None, preloaded=None, quiet=False):
         r = per_rule.setdefault(o.rule, {"obligations": 0, "discharged": 0})
         r["obligations"] += 1
         r["discharged"] += 1 if o.ok else 0
+        if o.ok is None:
+            r["undecided"] = r.get("undecided", 0) + 1
 
     ev = {
         "property_id": prop,
@@ -193,6 +251,7 @@ def run_check(prop, fn, tier, meta, repo=None, preloaded=None, quiet=False):
             "checker_cmd": "./check %s --tier %s" % (prop, tier),
             "trusted_base": meta.get("trusted_base", []),
             "undecided": undecided,
+            "undecided_obligations": [o.as_json() for o in open_obs][:40],
         },
         "assumptions": meta.get("assumptions", []),
     }
@@ -205,6 +264,11 @@ def run_check(prop, fn, tier, meta, repo=None, preloaded=None, quiet=False):
     code = 0
     if undecided is not None:
         out.append("UNDECIDED property=%s: %s" % (prop, undecided))
+        code = 2
+    if open_obs:
+        for o in open_obs:
+            out.append("  undecided: %s  at %s  -- %s" % (o.key, o.where, o.detail))
+        out.append("UNDECIDED property=%s: %d obligation(s) could be neither established nor refuted (a site or a construction the rules do not know)" % (prop, len(open_obs)))
         code = 2
     if unlisted:
         vpath = os.path.join(EVIDENCE_DIR, "%s.violations.json" % prop)
@@ -224,7 +288,7 @@ def run_check(prop, fn, tier, meta, repo=None, preloaded=None, quiet=False):
             print(line)
         print("%s %s: %d obligations, %d discharged, %d known findings, %d violations, %s [%ss]" % (
             prop, tier, len(ctx.obs), len(discharged), len(listed), len(unlisted),
-            "UNDECIDED" if undecided else "decided", wall))
+            "UNDECIDED" if (undecided or open_obs) else "decided", wall))
     return code, ctx, out
 
 
